@@ -363,8 +363,8 @@ def install_fakefs():
     _set(m["iterators"], "open", fake_open)
     _set(m["interface"], "shutil", _FakeShutil)
     import sys
-    _set(m["iterators"], "gzip_standin", _FakeGzip)
-    sys.modules["gzip_verif_fake"] = _FakeGzip
+    # iterators.open_function does `import gzip` locally: the import statement consults sys.modules
+    sys.modules["gzip"] = _FakeGzip
 
 
 def install_quiet_stderr():
